@@ -1,21 +1,43 @@
 from common import LEAN_TB
 
 CFG = {
- 'lean_modules': ['ObiVerif.Props.C18'],
+ 'lean_modules': ['ObiVerif.Props.C18', 'ObiVerif.Props.C18Z', 'ObiVerif.Props.C18Proc'],
  'gen': False,
  'thorough_seeds': 6,
  'timeout': 1500,
- 'rule': 'cases = (writer, compressed or not, sink capacity k = byte offset of the injected write fault, Close failing or not, arrival history of chunks): corpus with results below and above the 4 KiB '
-         'buffer (faults surfacing only at the final flush / at Close), drained chunks, and random (k, history) pairs; plus the real obiconvert run as a subprocess on /dev/full and on a closed pipe; '
-         'non-trivial = distinct well-formed case',
- 'technique': 'Lean 4 theorem (ok outcome implies every byte reached the sink) on a model of the writers over bufio.Writer and a failing sink, for every fault offset and arrival order + differential correspondence with the real writers on a fault-injecting io.WriteCloser + subprocess exit status',
- 'level_text': 'The four writers are modelled over a transcription of bufio.Writer (sticky error, 4096-byte buffer, direct large writes) and a sink that fails after k bytes or at Close. The theorems in the evidence state, for every k, '
-               'every buffer size, every arrival permutation and every chunk content: outcome ok implies the sink holds exactly the complete result (and conversely a result that fits is written with outcome ok). The model is tied to '
-               'WriteFasta/WriteFastq/WriteJSON/WriteCSV over obiutils.Wfile by injecting the same fault into the real code and comparing the outcome and the exact number of bytes the sink holds when log.Fatal fires.',
- 'level_note': 'Trusted: Lean kernel; the transcription of bufio.Writer and of the writers (Model/WriteErr.lean). Compressed output: the pgzip codec is not modelled (the model only says: ok iff the capacity is at least the compressed size measured on a non-failing run); '
-               'the oracle gunzips what the sink holds. Exit status of the real commands is observed on two subprocess scenarios only (/dev/full, closed pipe). log.Fatal is taken as "reports the failure and exits non-zero".',
- 'trusted_base': LEAN_TB + ['Go bufio.Writer semantics as transcribed (validated: exact byte counts at failure time agree with the real Wfile on every case)',
-                            'pgzip (external) for compressed output', 'the operating system for /dev/full and closed pipes'],
- 'modelled': 'seqfile_chunk_write.go WriteSeqFileChunk, json_writer.go / csv_writer.go writer goroutines, obiutils/gzipfile.go Wfile.Write/Close (uncompressed path), bufio.Writer.Write/Flush',
- 'assumptions': ['one formatting worker when the arrival order is forced', 'a sink fails permanently once it has failed'],
+ 'rule': 'cases = (writer, compressed or not, owned or not, sink capacity k = byte offset of the injected write fault, Close failing or not, arrival history of chunks): corpus with results below and above the 4 KiB '
+         'buffer (faults surfacing only at the final flush / at Close), k = 0, 1, 4095, 4096, 4097, result size -1 / +0 / +1, faults in the gzip header / blocks / last block / trailer, drained chunks, random (k, history) pairs; '
+         'scripted io.Writers (short writes with nil error, temporary errors, partial writes); several writers in one process (independent writers, the real WriterDispatcher over injected sinks) one of which fails; '
+         'the real commands (obiconvert, obigrep, obiannotate, obiuniq, obicomplement, obipairing, obicsv, obidistribute) as subprocesses on /dev/full (-o and stdout), a closed pipe, a FIFO whose reader leaves after k bytes, '
+         'a missing directory, paired outputs and obidistribute files one of which is /dev/full (append and -Z included), plus no-fault controls; non-trivial = distinct well-formed case',
+ 'technique': 'Lean 4 theorems (ok outcome / exit status 0 implies every byte reached every output) on a model of the writers over bufio.Writer over a failing sink, over an abstract pgzip writer and over an arbitrary io.Writer, '
+              'for every fault offset, arrival order, compressor, error-visibility schedule and goroutine interleaving + differential correspondence with the real writers on fault-injecting io.WriteClosers (each case in a process of '
+              'its own ending like main(): WaitForLastPipe) + exit status and stderr of the real commands',
+ 'level_text': 'Three layers, all with theorems over unbounded inputs. (1) Wfile, uncompressed: bufio.Writer (sticky error, 4096-byte buffer, direct large writes) over a sink failing after k bytes or at Close, owned or not '
+               '(OptionDontCloseFile): the sink ends with exactly the first k bytes of the complete result and the outcome is fatal iff the result does not fit or the owned Close fails (raw_exact/json_exact, rawO_exact/jsonO_exact and '
+               'corollaries *_ok_all_bytes, *_fatal_iff, *_prefix_safe), for every k, buffer size, arrival permutation, chunk content. (2) Wfile, compressed: the same bufio transcription, generic in the underlying writer (GW; proved equal to '
+               'the first one on the sink: bufio_write_refines), over an abstract pgzip writer = any compressor whose output only grows with its input (header + complete blocks while writing, last block + trailer at Close), a listener that '
+               'stops writing after the first failure, and an arbitrary schedule of the moments at which the pushed error becomes visible to Write: gz_raw_exact/gz_json_exact give the same exact characterisation on the compressed stream '
+               '(fault in header, blocks, last block or trailer; Close itself). Over ANY io.Writer (short writes with nil error, temporary errors): dev_*_safe (ok implies all bytes; always a prefix) and dev_*_good_ok (no false alarm). '
+               '(3) Process: writers registered in the pipe registry, main blocked in WaitForLastPipe, log.Fatalf as two steps (report, then os.Exit(1)) before UnregisterPipe: for EVERY interleaving the exit status is 1 iff some output failed '
+               '(exit_sound, exit_nonzero_of_failure, exit_not_one_of_no_failure), no deadlock (no_deadlock), and composed with (1): exit status 0 implies every output of the command holds every byte (exit0_all_complete), for any number of '
+               'outputs (paired files, obidistribute). early_release_races shows that the order of the seeded regression C18-m2 does admit an interleaving with status 0. The model is tied to WriteFasta/WriteFastq/WriteJSON/WriteCSV over '
+               'obiutils.Wfile (and to WriterDispatcher) by injecting the same fault into the real code and comparing the outcome and the exact number of bytes the sink holds (compressed output included).',
+ 'level_note': 'Trusted: Lean kernel; the transcription of bufio.Writer, of Wfile.Close, of the writers and of the order report-before-unregister (Model/WriteErr.lean, WriteDev.lean, WriteProc.lean). pgzip is abstract: its structure (error pushed by '
+               'the listener, checked at the entry and exit of Write, always seen by Close; nothing written after the first failure; output a monotone function of the accepted input) is read from pgzip v1.2.6, not transcribed line by line; the '
+               'executable model uses a compressor of the stream length measured on a non-failing run of the real pgzip (gz_len_only: outcome and byte count depend on nothing else); the oracle gunzips what the sink holds. '
+               'exit0_all_complete composes the process theorem with the uncompressed Wfile theorems only (the compressed ones compose the same way through exit0_all_ok; not stated as a separate theorem). '
+               'Process model: every writer is registered before main reaches WaitForLastPipe (true of the code: RegisterAPipe is called synchronously by Write*, and WriterDispatcher blocks main until every file iterator is consumed) - this is '
+               'an assumption of the model, not a theorem about the Go code; dynamic registration is not modelled. JSON/CSV over WriterDispatcher are not exercised in-process (FASTA/FASTQ only, as obidistribute offers). '
+               'Append mode (OpenWritingFile / --append) is exercised by subprocess scenarios only; the model sees the bytes appended by the run. A device returning (0, nil) for ever makes bufio.Writer loop for '
+               'ever (no exit at all): the fuel of the generic Write is adequate under progress only; the safety theorems do not need it. The exit status of the real commands is observed on the listed subprocess scenarios; obimultiplex '
+               '(--unidentified) is not run as a subprocess (needs a tag file) - its two outputs are the multi-writer cases. obicount / obisummary print with fmt.Print (not one of the four writers) and do exit 0 on /dev/full: outside the '
+               'anchors, reported to the lead. log.Fatal is taken as "reports the failure and exits non-zero" (checked on stderr in the subprocess scenarios).',
+ 'trusted_base': LEAN_TB + ['Go bufio.Writer semantics as transcribed (validated: exact byte counts at failure time agree with the real Wfile on every case, scripted short-write / temporary-error sinks included)',
+                            'pgzip v1.2.6 (external) error propagation as abstracted (validated: outcome and byte count on every compressed case, faults in header, blocks and trailer)',
+                            'sync.WaitGroup / goroutine semantics as abstracted by the process model', 'the operating system for /dev/full, FIFOs and closed pipes'],
+ 'modelled': 'seqfile_chunk_write.go WriteSeqFileChunk, json_writer.go / csv_writer.go writer goroutines, obiutils/gzipfile.go Wfile.Write/Close (uncompressed and compressed, owned or not), bufio.Writer.Write/Flush over any io.Writer, '
+             'pgzip Writer (abstract), the pipe registry protocol (RegisterAPipe / log.Fatalf / UnregisterPipe / WaitForLastPipe) for any number of writers (dispatcher.go WriterDispatcher, paired outputs of sequence_writer.go)',
+ 'assumptions': ['one formatting worker when the arrival order is forced', 'a sink fails permanently once it has failed (limit sinks; scripted devices are unrestricted)',
+                 'every writer is registered before main() waits on the registry', 'the compressor output is a monotone function of the bytes it accepted (block boundaries do not depend on the slicing of Write calls)'],
 }
